@@ -40,26 +40,9 @@ theorem storedM_append (st : List (Nat × Nat × Nat)) (x : Nat × Nat × Nat) (
 
 theorem pop_specM {q : List (Nat × Nat)} {pid m : Nat} {rest : List (Nat × Nat)} (h : pop q pid = some (m, rest)) :
     ∀ p m', qcM q p m' = qcM rest p m' + (pid == p && m == m').toNat := by
-  induction q generalizing rest with
-  | nil => simp [pop] at h
-  | cons x xs ih =>
-    obtain ⟨p0, m0⟩ := x
-    simp only [pop] at h
-    split at h
-    · rename_i hp
-      simp only [Option.some.injEq, Prod.mk.injEq] at h
-      obtain ⟨rfl, rfl⟩ := h
-      intro p m'; subst hp; simp only [qcM, List.countP_cons]
-      cases (p0 == p && m0 == m') <;> simp
-    · rename_i hp
-      simp only [Option.map_eq_some_iff] at h
-      obtain ⟨⟨m1, r1⟩, h1, h2⟩ := h
-      simp only [Prod.mk.injEq] at h2
-      obtain ⟨rfl, rfl⟩ := h2
-      intro p m'
-      have := ih h1 p m'
-      simp only [qcM, List.countP_cons] at this ⊢
-      omega
+  rw [pop_head h]
+  intro p m'; simp only [qcM, List.countP_cons]
+  cases (pid == p && m == m') <;> simp
 
 /-- `wait_pubrel` holds the message in the waiter or, with a fast PUBREL, in the PUBCOMP queue; an older waiter's message is dropped -/
 theorem waitRel_hold (s : S) (pid msg : Nat) (rem : List Item) (q p m : Nat) :
